@@ -133,10 +133,15 @@ func (x *UnsafeAnyBSlice[E]) Grow(i int) {
 	_ = x.GrowE(i)
 }
 
-func (x *UnsafeAnyBSlice[E]) GrowE(i int) error {
+func (x *UnsafeAnyBSlice[E]) GrowE(i int) (err error) {
 	if i < 0 {
 		return errors.New("insert index out of range")
 	}
+	defer func() {
+		if r := recover(); r != nil {
+			err = errors.New(fmt.Sprintf("cannot grow by %d: %v", i, r))
+		}
+	}()
 	x.e = Grow(x.e, i)
 	return nil
 }
